@@ -224,6 +224,10 @@ func (r *reifier) goType(t types.Type) string {
 	switch x := t.(type) {
 	case *types.TypeParam:
 		if it, ok := x.Constraint().Underlying().(*types.Interface); ok && !types.Satisfies(types.Typ[types.Int], it) {
+			// a type parameter constrained by an interface (JobType iJob[T]) is instantiated with that interface itself
+			if n, ok := types.Unalias(x.Constraint()).(*types.Named); ok && it.IsMethodSet() {
+				return r.goType(n)
+			}
 			r.abort("type parameter %s cannot be instantiated with int", x)
 		}
 		return "int"
@@ -650,6 +654,14 @@ func (te *trEnv) tr(e *CExpr) goExpr {
 		r.abort("conditional expression of kind %s", a.cat)
 	case "call":
 		switch e.Name {
+		case "max", "min":
+			if len(e.Args) == 2 {
+				a, b := te.tr(e.Args[0]), te.tr(e.Args[1])
+				if a.cat == "int" && b.cat == "int" {
+					return goExpr{fmt.Sprintf("vq%s(%s, %s)", strings.Title(e.Name), a.code, b.code), "int", a.typ}
+				}
+			}
+			r.abort("%s of non-integers", e.Name)
 		case "len", "cap":
 			a := te.tr(e.Args[0])
 			return goExpr{fmt.Sprintf("vq%s(%s)", strings.Title(e.Name), a.code), "int", types.Typ[types.Int]}
@@ -960,6 +972,18 @@ func vqRem(a, b *big.Int) *big.Int { return new(big.Int).Rem(a, b) }
 func vqNeg(a *big.Int) *big.Int { return new(big.Int).Neg(a) }
 func vqIte(c bool, a, b *big.Int) *big.Int {
 	if c {
+		return a
+	}
+	return b
+}
+func vqMax(a, b *big.Int) *big.Int {
+	if a.Cmp(b) >= 0 {
+		return a
+	}
+	return b
+}
+func vqMin(a, b *big.Int) *big.Int {
+	if a.Cmp(b) <= 0 {
 		return a
 	}
 	return b
